@@ -1,0 +1,16 @@
+//go:build verif
+
+// Contracts for the deductive verification in /verif (govc): helper of the x509 name
+// collection (area x509json, property C02). This file contains comments only; it is compiled
+// only with -tags verif and declares nothing.
+
+package util
+
+// rxURL is regexp.MustCompile(URL) (package initialiser): MustCompile returns a non-nil
+// *Regexp or panics during initialisation.
+//@ global rxURL != nil
+// IsURL is total for every string (C02: name collection of a parsed certificate does not
+// panic); what counts as a URL is not specified here (net/url and regexp are opaque).
+//@ func IsURL
+//@   modifies nothing
+//@   terminates
